@@ -67,28 +67,98 @@ Qed.
 Definition chan_events (cid code : N) (chn : chan) : list ev :=
   chan_effects cid chn code ++ [EvPush cid (ch_name chn) code].
 
+(* what Client.Unsubscribe(n) emits on a connection holding channels l *)
+Definition name_events (cid code : N) (l : list chan) (n : N) : list ev :=
+  match find_chan n l with
+  | Some chn => chan_events cid code chn
+  | None => [EvPush cid n code]
+  end.
+
 Definition conn_events (c : conn) (code : N) : list ev :=
-  flat_map (chan_events (cn_id c) code) (cn_chans c).
+  flat_map (name_events (cn_id c) code (cn_chans (resolve c))) (snapshot c).
 
 Definition all_events (t : target) (code : N) (s : list conn) : list ev :=
   flat_map (fun c => if targeted t c then conn_events c code else []) s.
 
 Definition after (t : target) (c : conn) : conn :=
-  if targeted t c then set_chans c [] else c.
+  if targeted t c then set_chans (resolve c) [] else resolve c.
 
 Definition observe (c : conn) : oconn := mkOConn (cn_id c) (names c) (names c).
+
+Definition memb (x : N) (l : list N) : bool := existsb (N.eqb x) l.
+
+Lemma memb_In : forall x l, memb x l = true <-> In x l.
+Proof.
+  intros x l; unfold memb; rewrite existsb_exists; split.
+  - intros [y [Hy E]]; apply N.eqb_eq in E; subst; assumption.
+  - intro H; exists x; split; [assumption|apply N.eqb_refl].
+Qed.
 
 Lemma set_chans_id : forall c, set_chans c (cn_chans c) = c.
 Proof. destruct c; reflexivity. Qed.
 
-Lemma del_head : forall x r,
-  ~ In (ch_name x) (map ch_name r) -> del_chan (ch_name x) (x :: r) = r.
+Lemma find_chan_name : forall n l x, find_chan n l = Some x -> ch_name x = n /\ In x l.
 Proof.
-  intros x r H; unfold del_chan; simpl; rewrite N.eqb_refl; simpl.
-  induction r as [|y r IH]; [reflexivity|].
-  simpl. destruct (ch_name y =? ch_name x) eqn:E.
-  - apply N.eqb_eq in E; exfalso; apply H; left; assumption.
-  - simpl; f_equal; apply IH; intro; apply H; right; assumption.
+  induction l as [|y l IH]; intros x H; cbn [find_chan] in H; [discriminate|].
+  destruct (ch_name y =? n) eqn:E.
+  - inversion H; subst. apply N.eqb_eq in E. split; [assumption|left; reflexivity].
+  - destruct (IH x H); split; [assumption|right; assumption].
+Qed.
+
+Lemma find_chan_none : forall n l, find_chan n l = None -> ~ In n (map ch_name l).
+Proof.
+  induction l as [|y l IH]; intros H; cbn [find_chan] in H; [intros []|].
+  destruct (ch_name y =? n) eqn:E; [discriminate|].
+  apply N.eqb_neq in E. intros [H1|H1]; [contradiction|]. exact (IH H H1).
+Qed.
+
+Lemma find_chan_in : forall l chn,
+  NoDup (map ch_name l) -> In chn l -> find_chan (ch_name chn) l = Some chn.
+Proof.
+  induction l as [|y l IH]; intros chn Hnd Hin; [contradiction|].
+  inversion Hnd as [|? ? Hni Hnd']; subst. cbn [find_chan].
+  destruct Hin as [->|Hin]; [rewrite N.eqb_refl; reflexivity|].
+  destruct (ch_name y =? ch_name chn) eqn:E.
+  - apply N.eqb_eq in E. exfalso. apply Hni. rewrite E. apply in_map; assumption.
+  - apply IH; assumption.
+Qed.
+
+Lemma find_del_other : forall n n' l, n' <> n -> find_chan n' (del_chan n l) = find_chan n' l.
+Proof.
+  intros n n' l Hne; unfold del_chan. induction l as [|y l IH]; [reflexivity|].
+  cbn [filter find_chan]. destruct (ch_name y =? n) eqn:E; cbn [negb].
+  - apply N.eqb_eq in E. destruct (ch_name y =? n') eqn:E'; [apply N.eqb_eq in E'; congruence|exact IH].
+  - cbn [find_chan]. rewrite IH. reflexivity.
+Qed.
+
+Lemma NoDup_map_filter : forall (A : Type) (f : A -> N) p (l : list A),
+  NoDup (map f l) -> NoDup (map f (filter p l)).
+Proof.
+  induction l as [|y l IH]; intro H; [constructor|].
+  inversion H as [|? ? Hni Hnd]; subst. cbn [filter]. destruct (p y); [|apply IH; assumption].
+  cbn [map]. constructor; [|apply IH; assumption].
+  intro Hin. apply Hni. apply in_map_iff in Hin. destruct Hin as [z [Hz Hin]].
+  apply filter_In in Hin. destruct Hin as [Hin _]. rewrite <- Hz. apply in_map; assumption.
+Qed.
+
+Lemma filter_ext_in' : forall (A : Type) (p q : A -> bool) l,
+  (forall x, In x l -> p x = q x) -> filter p l = filter q l.
+Proof.
+  induction l as [|y l IH]; intro H; [reflexivity|]. cbn [filter].
+  rewrite (H y (or_introl eq_refl)), IH; [reflexivity|]. intros; apply H; right; assumption.
+Qed.
+
+Lemma filter_filter : forall (A : Type) (p q : A -> bool) l,
+  filter p (filter q l) = filter (fun x => q x && p x) l.
+Proof.
+  induction l as [|y l IH]; [reflexivity|]. cbn [filter]. destruct (q y); cbn [filter andb]; rewrite IH; reflexivity.
+Qed.
+
+Lemma flat_map_ext_in' : forall (A B : Type) (f g : A -> list B) l,
+  (forall x, In x l -> f x = g x) -> flat_map f l = flat_map g l.
+Proof.
+  induction l as [|y l IH]; intro H; [reflexivity|]. cbn [flat_map].
+  rewrite (H y (or_introl eq_refl)), IH; [reflexivity|]. intros; apply H; right; assumption.
 Qed.
 
 Lemma unsub_names_closed : forall ns c code,
@@ -98,31 +168,90 @@ Proof.
   simpl; unfold client_unsubscribe; rewrite H, IH by assumption; reflexivity.
 Qed.
 
-Lemma unsub_names_all : forall l c code,
-  cn_closed c = false -> NoDup (map ch_name l) ->
-  unsub_names (set_chans c l) (map ch_name l) code
-  = (set_chans c [], flat_map (chan_events (cn_id c) code) l).
+Lemma unsub_names_gen : forall ns l c code,
+  cn_closed c = false -> NoDup ns -> NoDup (map ch_name l) ->
+  unsub_names (set_chans c l) ns code
+  = (set_chans c (filter (fun x => negb (memb (ch_name x) ns)) l),
+     flat_map (name_events (cn_id c) code l) ns).
 Proof.
-  induction l as [|x r IH]; intros c code Hc Hnd; [reflexivity|].
-  inversion Hnd as [|? ? Hni Hnd']; subst.
-  cbn [map unsub_names]. unfold client_unsubscribe at 1.
-  cbn [cn_closed cn_chans set_chans cn_id]. rewrite Hc.
-  cbn [find_chan]. rewrite N.eqb_refl.
-  rewrite del_head by assumption.
-  change (mkConn (cn_id c) (cn_user c) (cn_session c) (cn_lf c) (cn_closed c) r) with (set_chans c r).
-  rewrite IH by assumption. cbn [flat_map]. unfold chan_events at 2. reflexivity.
+  induction ns as [|n r IH]; intros l c code Hc Hns Hl.
+  - cbn [unsub_names flat_map]. f_equal. f_equal.
+    symmetry. rewrite (filter_ext_in' _ _ (fun _ => true)); [|reflexivity].
+    induction l as [|y l IHl]; [reflexivity|]. cbn [filter]. f_equal. apply IHl.
+    inversion Hl; assumption.
+  - inversion Hns as [|? ? Hni Hnr]; subst.
+    cbn [unsub_names flat_map]. unfold client_unsubscribe at 1.
+    cbn [cn_closed cn_chans set_chans cn_id]. rewrite Hc. unfold name_events at 1.
+    destruct (find_chan n l) as [chn|] eqn:F.
+    + change (mkConn (cn_id c) (cn_user c) (cn_session c) (cn_lf c) (cn_closed c) (del_chan n l) (cn_inflight c))
+        with (set_chans c (del_chan n l)).
+      rewrite IH; [|assumption|assumption|apply NoDup_map_filter; assumption].
+      destruct (find_chan_name _ _ _ F) as [Hn _].
+      assert (E1 : filter (fun x => negb (memb (ch_name x) r)) (del_chan n l)
+                   = filter (fun x => negb (memb (ch_name x) (n :: r))) l).
+      { unfold del_chan. rewrite filter_filter. apply filter_ext_in'. intros x _.
+        cbn [memb existsb]. fold (memb (ch_name x) r). rewrite (N.eqb_sym (ch_name x) n).
+        destruct (n =? ch_name x); reflexivity. }
+      assert (E2 : flat_map (name_events (cn_id c) code (del_chan n l)) r
+                   = flat_map (name_events (cn_id c) code l) r).
+      { apply flat_map_ext_in'. intros n' Hn'. unfold name_events.
+        rewrite find_del_other; [reflexivity|]. intro; subst; contradiction. }
+      rewrite E1. cbn [cn_id set_chans cn_user cn_session cn_lf cn_closed cn_inflight].
+      rewrite E2. unfold chan_events. rewrite Hn. reflexivity.
+    + change (mkConn (cn_id c) (cn_user c) (cn_session c) (cn_lf c) (cn_closed c) l (cn_inflight c))
+        with (set_chans c l).
+      rewrite IH by assumption.
+      assert (E1 : filter (fun x => negb (memb (ch_name x) r)) l
+                   = filter (fun x => negb (memb (ch_name x) (n :: r))) l).
+      { apply filter_ext_in'. intros x Hx. cbn [memb existsb]. fold (memb (ch_name x) r).
+        destruct (ch_name x =? n) eqn:E; [|reflexivity].
+        apply N.eqb_eq in E. exfalso. apply (find_chan_none _ _ F). rewrite <- E. apply in_map; assumption. }
+      rewrite E1. reflexivity.
+Qed.
+
+Lemma names_resolve : forall c,
+  names (resolve c) = map ch_name (cn_chans c) ++ map (fun a => ch_name (fst a)) (filter snd (cn_inflight c)).
+Proof. intro c; unfold names, resolve; cbn [cn_chans]. rewrite map_app, map_map. reflexivity. Qed.
+
+Lemma NoDup_app_filter : forall (A : Type) (f : A -> N) p (a : list N) (b : list A),
+  NoDup (a ++ map f b) -> NoDup (a ++ map f (filter p b)).
+Proof.
+  induction a as [|x a IH]; intros b H; cbn [app] in *.
+  - apply NoDup_map_filter; assumption.
+  - inversion H as [|? ? Hni Hnd]; subst. constructor; [|apply IH; assumption].
+    intro Hin. apply Hni. apply in_app_or in Hin. apply in_or_app. destruct Hin as [Hin|Hin]; [left; assumption|right].
+    apply in_map_iff in Hin. destruct Hin as [z [Hz Hin]]. apply filter_In in Hin. destruct Hin as [Hin _].
+    rewrite <- Hz. apply in_map; assumption.
+Qed.
+
+Lemma names_resolve_nodup : forall c, NoDup (snapshot c) -> NoDup (names (resolve c)).
+Proof. intros c H; rewrite names_resolve. apply NoDup_app_filter. exact H. Qed.
+
+Lemma names_resolve_in_snapshot : forall c n, In n (names (resolve c)) -> In n (snapshot c).
+Proof.
+  intros c n H; rewrite names_resolve in H; unfold snapshot. apply in_app_or in H. apply in_or_app.
+  destruct H as [H|H]; [left; assumption|right].
+  apply in_map_iff in H. destruct H as [z [Hz Hin]]. apply filter_In in Hin. destruct Hin as [Hin _].
+  rewrite <- Hz. apply (in_map (fun a => ch_name (fst a))); assumption.
 Qed.
 
 Lemma unsubscribe_connection_all : forall c code,
-  NoDup (names c) ->
+  NoDup (snapshot c) ->
   unsubscribe_connection c 0 code =
-  if cn_closed c then (c, []) else (set_chans c [], conn_events c code).
+  if cn_closed c then (resolve c, []) else (set_chans (resolve c) [], conn_events c code).
 Proof.
   intros c code Hnd. unfold unsubscribe_connection. cbn [N.eqb].
   destruct (cn_closed c) eqn:Hc.
-  - apply unsub_names_closed; assumption.
-  - rewrite <- (set_chans_id c) at 1. unfold conn_events.
-    apply unsub_names_all; assumption.
+  - apply unsub_names_closed. exact Hc.
+  - rewrite <- (set_chans_id (resolve c)) at 1.
+    rewrite unsub_names_gen; [|exact Hc|exact Hnd|apply names_resolve_nodup; exact Hnd].
+    unfold conn_events. f_equal.
+    assert (E : filter (fun x => negb (memb (ch_name x) (snapshot c))) (cn_chans (resolve c)) = []).
+    { rewrite (filter_ext_in' _ _ (fun _ => false)).
+      - induction (cn_chans (resolve c)) as [|y l IHl]; [reflexivity|exact IHl].
+      - intros x Hx. apply negb_false_iff. apply memb_In. apply names_resolve_in_snapshot.
+        unfold names. apply in_map; assumption. }
+    rewrite E. reflexivity.
 Qed.
 
 Lemma targeted_model : forall t c,
@@ -139,7 +268,7 @@ Proof.
 Qed.
 
 Lemma node_unsubscribe_explicit : forall t code s,
-  (forall c, In c s -> NoDup (names c)) ->
+  (forall c, In c s -> NoDup (snapshot c)) ->
   node_unsubscribe t 0 code s = (map (after t) s, all_events t code s).
 Proof.
   unfold node_unsubscribe, all_events.
@@ -147,7 +276,7 @@ Proof.
   cbn [node_unsub map flat_map].
   rewrite IH by (intros; apply Hnd; right; assumption).
   assert (Ha : after t c = if in_scope t c && narrow t c && negb (cn_closed c)
-                           then set_chans c [] else c)
+                           then set_chans (resolve c) [] else resolve c)
     by (unfold after; rewrite targeted_model; reflexivity).
   rewrite Ha, (targeted_model t c). clear Ha.
   destruct (in_scope t c && narrow t c) eqn:E.
@@ -168,6 +297,15 @@ Lemma chan_events_tags : forall cid code chn e,
 Proof.
   intros cid code chn e; unfold chan_events, chan_effects.
   destruct (ch_presence chn), (ch_joinleave chn); simpl; intuition (subst; auto).
+Qed.
+
+Lemma name_events_tags : forall cid code l n e,
+  In e (name_events cid code l n) -> ev_cid e = cid /\ ev_ch e = n.
+Proof.
+  intros cid code l n e H; unfold name_events in H.
+  destruct (find_chan n l) as [chn|] eqn:F.
+  - destruct (find_chan_name _ _ _ F) as [Hn _]. apply chan_events_tags in H. rewrite Hn in H. exact H.
+  - destruct H as [<-|[]]. auto.
 Qed.
 
 Lemma usual_effect_tags : forall cid code chn e,
@@ -193,48 +331,68 @@ Proof.
     rewrite ?N.eqb_refl, ?Bool.eqb_reflx; reflexivity.
 Qed.
 
-Lemma conn_count1 : forall cid code l chn e,
-  NoDup (map ch_name l) -> In chn l -> usual_effect cid code chn e ->
-  countb e (flat_map (chan_events cid code) l) = 1%nat.
+Lemma push_count1 : forall cid code l n,
+  countb (EvPush cid n code) (name_events cid code l n) = 1%nat.
 Proof.
-  induction l as [|x r IH]; intros chn e Hnd Hin Hu; [contradiction|].
-  inversion Hnd as [|? ? Hni Hnd']; subst.
+  intros cid code l n; unfold name_events. destruct (find_chan n l) as [chn|] eqn:F.
+  - destruct (find_chan_name _ _ _ F) as [<- _]. apply usual_effect_count1. constructor.
+  - unfold countb; cbn. rewrite !N.eqb_refl. reflexivity.
+Qed.
+
+Lemma names_count0 : forall cid code l ns e,
+  ~ In (ev_ch e) ns -> countb e (flat_map (name_events cid code l) ns) = 0%nat.
+Proof.
+  intros cid code l ns e H. apply countb_notin. intro Hi. apply in_flat_map in Hi.
+  destruct Hi as [n [Hn He]]. apply name_events_tags in He. destruct He as [_ He]. subst n. contradiction.
+Qed.
+
+Lemma conn_count1 : forall cid code l ns chn e,
+  NoDup ns -> NoDup (map ch_name l) -> In chn l -> In (ch_name chn) ns ->
+  usual_effect cid code chn e ->
+  countb e (flat_map (name_events cid code l) ns) = 1%nat.
+Proof.
+  induction ns as [|n r IH]; intros chn e Hns Hl Hin Hn Hu; [contradiction|].
+  inversion Hns as [|? ? Hni Hnr]; subst.
   cbn [flat_map]. rewrite countb_app.
   destruct (usual_effect_tags _ _ _ _ Hu) as [_ Hch].
-  destruct Hin as [->|Hin].
-  - rewrite (usual_effect_count1 _ _ _ _ Hu), countb_notin; [reflexivity|].
-    intro Hi. apply in_flat_map in Hi. destruct Hi as [y [Hy He]].
-    apply chan_events_tags in He. destruct He as [_ He].
-    apply Hni. rewrite <- Hch, He. apply in_map; assumption.
-  - rewrite (IH chn e Hnd' Hin Hu), countb_notin; [reflexivity|].
-    intro Hi. apply chan_events_tags in Hi. destruct Hi as [_ Hi].
-    apply Hni. rewrite <- Hi, Hch. apply in_map; assumption.
+  destruct Hn as [->|Hn].
+  - unfold name_events at 1. rewrite (find_chan_in _ _ Hl Hin).
+    rewrite (usual_effect_count1 _ _ _ _ Hu), names_count0; [reflexivity|]. rewrite Hch; assumption.
+  - rewrite (IH chn e Hnr Hl Hin Hn Hu), countb_notin; [reflexivity|].
+    intro Hi. apply name_events_tags in Hi. destruct Hi as [_ Hi]. apply Hni. rewrite <- Hi, Hch. assumption.
+Qed.
+
+Lemma conn_push_le1 : forall cid code l ns n,
+  NoDup ns -> (countb (EvPush cid n code) (flat_map (name_events cid code l) ns) <= 1)%nat.
+Proof.
+  induction ns as [|m r IH]; intros n Hns; [cbn; lia|].
+  inversion Hns as [|? ? Hni Hnr]; subst. cbn [flat_map]. rewrite countb_app.
+  destruct (N.eq_dec m n) as [->|Hne].
+  - rewrite push_count1, names_count0; [lia|assumption].
+  - rewrite (countb_notin _ (name_events cid code l m)); [apply IH; assumption|].
+    intro Hi. apply name_events_tags in Hi. destruct Hi as [_ Hi]. cbn in Hi. congruence.
 Qed.
 
 Lemma conn_events_cid : forall c code e, In e (conn_events c code) -> ev_cid e = cn_id c.
 Proof.
   intros c code e H; unfold conn_events in H. apply in_flat_map in H.
-  destruct H as [y [_ He]]. apply chan_events_tags in He; tauto.
+  destruct H as [y [_ He]]. apply name_events_tags in He; tauto.
 Qed.
 
-Lemma all_count1 : forall t code s c chn e,
-  NoDup (map cn_id s) -> (forall c, In c s -> NoDup (names c)) ->
-  In c s -> targeted t c = true -> In chn (cn_chans c) ->
-  usual_effect (cn_id c) code chn e ->
-  countb e (all_events t code s) = 1%nat.
+Lemma all_count_conn : forall t code s c e,
+  NoDup (map cn_id s) -> In c s -> targeted t c = true -> ev_cid e = cn_id c ->
+  countb e (all_events t code s) = countb e (conn_events c code).
 Proof.
   unfold all_events.
-  induction s as [|x r IH]; intros c chn e Hid Hnd Hin Ht Hc Hu; [contradiction|].
+  induction s as [|x r IH]; intros c e Hid Hin Ht Hcid; [contradiction|].
   inversion Hid as [|? ? Hni Hid']; subst.
   cbn [flat_map]. rewrite countb_app.
-  destruct (usual_effect_tags _ _ _ _ Hu) as [Hcid _].
   destruct Hin as [->|Hin].
-  - rewrite Ht. unfold conn_events.
-    rewrite (conn_count1 _ _ _ chn e (Hnd c (or_introl eq_refl)) Hc Hu), countb_notin; [reflexivity|].
+  - rewrite Ht, (countb_notin e (flat_map _ r)); [lia|].
     intro Hi. apply in_flat_map in Hi. destruct Hi as [y [Hy He]].
     destruct (targeted t y); [|contradiction].
     apply conn_events_cid in He. apply Hni. rewrite <- Hcid, He. apply in_map; assumption.
-  - rewrite (IH c chn e Hid' (fun c' H' => Hnd c' (or_intror H')) Hin Ht Hc Hu), countb_notin; [reflexivity|].
+  - rewrite (IH c e Hid' Hin Ht Hcid), countb_notin; [reflexivity|].
     intro Hi. destruct (targeted t x); [|contradiction].
     apply conn_events_cid in Hi. apply Hni. rewrite <- Hi, Hcid. apply in_map; assumption.
 Qed.
@@ -248,6 +406,19 @@ Proof.
   - apply IH in H; destruct H; split; [right|]; assumption.
 Qed.
 
+Lemma cancelled_names : forall c n,
+  In n (snapshot c) -> ~ In n (names (resolve c)) -> exists chn, In chn (cancelled c) /\ ch_name chn = n.
+Proof.
+  intros c n Hs Hn. rewrite names_resolve in Hn. unfold snapshot in Hs.
+  apply in_app_or in Hs. destruct Hs as [Hs|Hs]; [exfalso; apply Hn; apply in_or_app; left; assumption|].
+  apply in_map_iff in Hs. destruct Hs as [[chn ok] [Hz Hin]]. cbn [fst] in Hz.
+  destruct ok.
+  - exfalso. apply Hn. apply in_or_app. right. rewrite <- Hz.
+    apply (in_map (fun a => ch_name (fst a)) _ (chn, true)). apply filter_In. split; [assumption|reflexivity].
+  - exists chn. split; [|assumption]. unfold cancelled.
+    apply (in_map fst _ (chn, false)). apply filter_In. split; [assumption|reflexivity].
+Qed.
+
 Lemma explicit_meets_spec : forall t code s evs,
   wf s -> Permutation (all_events t code s) evs ->
   UnsubAllSpec t code s (map observe (map (after t) s)) evs.
@@ -259,17 +430,31 @@ Proof.
   - intros c oc Hin Ht. rewrite map_map in Hin. apply in_combine_map in Hin.
     destruct Hin as [_ ->]. unfold after; rewrite Ht; split; reflexivity.
   - intros c chn e Hin Ht Hc Hu. rewrite <- (countb_perm e _ _ HP).
-    eapply all_count1; eassumption.
+    destruct (usual_effect_tags _ _ _ _ Hu) as [Hcid _].
+    rewrite (all_count_conn t code s c e Hid Hin Ht Hcid). unfold conn_events.
+    apply conn_count1 with (chn := chn); try assumption.
+    + apply Hnd; assumption.
+    + apply (names_resolve_nodup c). apply Hnd; assumption.
+    + apply names_resolve_in_snapshot. unfold names. apply in_map; assumption.
+  - intros c chn Hin Ht Hc. rewrite <- (countb_perm _ _ _ HP).
+    rewrite (all_count_conn t code s c (EvPush (cn_id c) (ch_name chn) code) Hid Hin Ht eq_refl). unfold conn_events.
+    apply conn_push_le1. apply Hnd; assumption.
   - intros e He. apply (Permutation_in _ (Permutation_sym HP)) in He.
     unfold all_events in He. apply in_flat_map in He. destruct He as [c [Hc He]].
     destruct (targeted t c) eqn:Ht; [|contradiction].
-    unfold conn_events in He. apply in_flat_map in He. destruct He as [chn [Hchn He]].
-    exists c, chn. repeat split; try assumption. apply usual_effect_in; assumption.
+    unfold conn_events in He. apply in_flat_map in He. destruct He as [n [Hn He]].
+    unfold name_events in He. destruct (find_chan n (cn_chans (resolve c))) as [chn|] eqn:F.
+    + destruct (find_chan_name _ _ _ F) as [_ Hchn]. exists c, chn. repeat split; try assumption.
+      left. split; [assumption|apply usual_effect_in; assumption].
+    + destruct He as [<-|[]].
+      destruct (cancelled_names c n Hn (find_chan_none _ _ F)) as [chn [Hchn <-]].
+      exists c, chn. repeat split; try assumption. right. split; [assumption|reflexivity].
 Qed.
 
-(* Main theorem: for every well-formed state, every targeting option, every code and
-   every interleaving of the per-connection goroutines (any permutation of the
-   effect log), Node.Unsubscribe(user, "") meets the specification. *)
+(* Main theorem: for every well-formed state (established subscriptions and subscribe
+   attempts in flight, with any answers), every targeting option, every code and every
+   interleaving of the per-connection goroutines (any permutation of the effect log),
+   Node.Unsubscribe(user, "") meets the specification. *)
 Theorem node_unsubscribe_meets_spec : forall t code s evs,
   wf s ->
   Permutation (snd (node_unsubscribe t 0 code s)) evs ->
@@ -281,34 +466,6 @@ Proof.
 Qed.
 
 (* Cluster: the call made on any node has the specified effect on every node. *)
-Lemma cluster_nth : forall t code nodes k s,
-  nth_error nodes k = Some s ->
-  nth_error (fst (cluster_unsubscribe t 0 code nodes)) k = Some (fst (node_unsubscribe t 0 code s)).
-Proof.
-  unfold cluster_unsubscribe, node_unsubscribe.
-  induction nodes as [|x r IH]; intros k s H; [destruct k; discriminate|].
-  cbn [cluster_unsub].
-  destruct (node_unsub unsubscribe_connection t 0 code x) as [x' ex] eqn:E1.
-  destruct (cluster_unsub unsubscribe_connection t 0 code r) as [r' er] eqn:E2.
-  destruct k as [|k]; simpl in *.
-  - inversion H; subst. rewrite E1. reflexivity.
-  - exact (IH k s H).
-Qed.
-
-Lemma cluster_events : forall t code nodes,
-  snd (cluster_unsubscribe t 0 code nodes)
-  = flat_map (fun s => snd (node_unsubscribe t 0 code s)) nodes.
-Proof.
-  unfold cluster_unsubscribe, node_unsubscribe.
-  induction nodes as [|x r IH]; [reflexivity|].
-  cbn [cluster_unsub flat_map].
-  destruct (node_unsub unsubscribe_connection t 0 code x) as [x' ex].
-  destruct (cluster_unsub unsubscribe_connection t 0 code r) as [r' er].
-  simpl in *. rewrite IH. reflexivity.
-Qed.
-
-(* Cluster-wide statement over the concatenated state (client ids are unique
-   cluster-wide): the union of all nodes meets the specification. *)
 Lemma node_unsubscribe_app : forall t code a b,
   node_unsubscribe t 0 code (a ++ b)
   = (fst (node_unsubscribe t 0 code a) ++ fst (node_unsubscribe t 0 code b),
@@ -353,7 +510,7 @@ Qed.
 
 (* ---------- the code before the fix violates the specification ---------- *)
 
-Definition refute_state : list conn := [mkConn 1 1 0 true false [mkChan 1 false false false]].
+Definition refute_state : list conn := [mkConn 1 1 0 true false [mkChan 1 false false false] []].
 Definition refute_target : target := mkTarget 1 0 0 false false.
 
 Theorem prefix_refuted :
@@ -364,91 +521,30 @@ Proof.
   exists refute_target, 2000, refute_state. split.
   - split; [repeat constructor; simpl; tauto|].
     intros c [<-|[]]. repeat constructor; simpl; tauto.
-  - intro H. destruct H as [_ Ht _ _ _].
-    specialize (Ht (mkConn 1 1 0 true false [mkChan 1 false false false])
+  - intro H. destruct H as [_ Ht _ _ _ _].
+    specialize (Ht (mkConn 1 1 0 true false [mkChan 1 false false false] [])
                    (mkOConn 1 [1] [1]) (or_introl eq_refl) eq_refl).
     destruct Ht as [Ht _]. discriminate.
 Qed.
 
-(* ---------- oracle soundness / completeness ---------- *)
+(* a variant that snapshots only established subscriptions (Client.Channels()) misses
+   the attempts in flight *)
+Definition unsubscribe_connection_established (c : conn) (n code : N) : conn * list ev :=
+  if n =? 0 then unsub_names (resolve c) (map ch_name (cn_chans c)) code
+  else client_unsubscribe (resolve c) n code.
 
-Lemma eqb_listN_eq : forall a b, eqb_listN a b = true <-> a = b.
+Theorem established_only_refuted :
+  exists t code s, wf s /\
+    ~ UnsubAllSpec t code s
+        (map observe (fst (node_unsub unsubscribe_connection_established t 0 code s)))
+        (snd (node_unsub unsubscribe_connection_established t 0 code s)).
 Proof.
-  induction a as [|x a IH]; destruct b as [|y b]; simpl; split; intro H;
-    try reflexivity; try discriminate.
-  - apply andb_prop in H; destruct H as [H1 H2]. apply N.eqb_eq in H1. apply IH in H2. congruence.
-  - inversion H; subst. rewrite N.eqb_refl. apply IH; reflexivity.
+  exists refute_target, 2000, [mkConn 1 1 0 true false [] [(mkChan 1 false false false, true)]]. split.
+  - split; [repeat constructor; simpl; tauto|].
+    intros c [<-|[]]. repeat constructor; simpl; tauto.
+  - intro H. destruct H as [_ Ht _ _ _ _].
+    specialize (Ht (mkConn 1 1 0 true false [] [(mkChan 1 false false false, true)])
+                   (mkOConn 1 [1] [1]) (or_introl eq_refl) eq_refl).
+    destruct Ht as [Ht _]. discriminate.
 Qed.
 
-Lemma usual_effects_l_iff : forall cid code chn e,
-  In e (usual_effects_l cid code chn) <-> usual_effect cid code chn e.
-Proof.
-  intros; unfold usual_effects_l; split.
-  - destruct (ch_joinleave chn) eqn:J, (ch_presence chn) eqn:P; simpl;
-      intuition (subst; try (constructor; assumption)).
-  - intro H; destruct H as [| |H|H]; rewrite ?H;
-      destruct (ch_joinleave chn), (ch_presence chn); simpl; auto 10.
-Qed.
-
-Lemma conns_ok_spec : forall t s o,
-  conns_ok t s o = true <->
-  (map oc_id o = map cn_id s /\
-   forall c oc, In (c, oc) (combine s o) -> conn_ok t c oc = true).
-Proof.
-  induction s as [|c s IH]; destruct o as [|oc o]; simpl; split; intro H;
-    try discriminate; try (destruct H; discriminate).
-  - split; [reflexivity|intros ? ? []].
-  - reflexivity.
-  - apply andb_prop in H; destruct H as [H H3]. apply andb_prop in H; destruct H as [H1 H2].
-    apply N.eqb_eq in H1. apply IH in H3. destruct H3 as [H3 H4]. split; [congruence|].
-    intros c0 oc0 [E|Hin]; [inversion E; subst; assumption|apply H4; assumption].
-  - destruct H as [H1 H2]. inversion H1 as [[Hh Ht]].
-    rewrite Hh, N.eqb_refl, (H2 c oc (or_introl eq_refl)). simpl.
-    apply IH. split; [assumption|]. intros; apply H2; right; assumption.
-Qed.
-
-Theorem spec_b_sound : forall t code s o evs,
-  unsub_all_spec_b t code s o evs = true -> UnsubAllSpec t code s o evs.
-Proof.
-  intros t code s o evs H. unfold unsub_all_spec_b in H.
-  apply andb_prop in H; destruct H as [H H3]. apply andb_prop in H; destruct H as [H1 H2].
-  apply conns_ok_spec in H1. destruct H1 as [Hids Hc]. constructor.
-  - assumption.
-  - intros c oc Hin Ht. specialize (Hc c oc Hin). unfold conn_ok in Hc. rewrite Ht in Hc.
-    destruct (oc_chans oc), (oc_hub oc); try discriminate; split; reflexivity.
-  - intros c oc Hin Ht. specialize (Hc c oc Hin). unfold conn_ok in Hc. rewrite Ht in Hc.
-    apply andb_prop in Hc; destruct Hc as [A B]. apply eqb_listN_eq in A, B. split; assumption.
-  - intros c chn e Hin Ht Hch Hu. unfold effects_ok in H2.
-    rewrite forallb_forall in H2. specialize (H2 c Hin). rewrite Ht in H2.
-    rewrite forallb_forall in H2. specialize (H2 chn Hch).
-    rewrite forallb_forall in H2. apply usual_effects_l_iff in Hu. specialize (H2 e Hu).
-    apply Nat.eqb_eq in H2. assumption.
-  - intros e He. unfold only_ok in H3. rewrite forallb_forall in H3. specialize (H3 e He).
-    apply existsb_exists in H3. destruct H3 as [c [Hcin H3]].
-    apply andb_prop in H3; destruct H3 as [Ht H3].
-    apply existsb_exists in H3. destruct H3 as [chn [Hchn H3]].
-    apply existsb_exists in H3. destruct H3 as [e' [He' Heq]].
-    apply ev_eqb_eq in Heq; subst e'. exists c, chn. repeat split; try assumption.
-    apply usual_effects_l_iff; assumption.
-Qed.
-
-Theorem spec_b_complete : forall t code s o evs,
-  UnsubAllSpec t code s o evs -> unsub_all_spec_b t code s o evs = true.
-Proof.
-  intros t code s o evs [Hids Ht Hf He Ho]. unfold unsub_all_spec_b.
-  apply andb_true_intro; split; [apply andb_true_intro; split|].
-  - apply conns_ok_spec. split; [assumption|]. intros c oc Hin. unfold conn_ok.
-    destruct (targeted t c) eqn:E.
-    + destruct (Ht c oc Hin E) as [-> ->]. reflexivity.
-    + destruct (Hf c oc Hin E) as [-> ->].
-      assert (R : eqb_listN (names c) (names c) = true) by (apply eqb_listN_eq; reflexivity).
-      rewrite R. reflexivity.
-  - unfold effects_ok. apply forallb_forall. intros c Hc. destruct (targeted t c) eqn:E; [|reflexivity].
-    apply forallb_forall. intros chn Hchn. apply forallb_forall. intros e Hin.
-    apply Nat.eqb_eq. apply (He c chn e Hc E Hchn). apply usual_effects_l_iff; assumption.
-  - unfold only_ok. apply forallb_forall. intros e Hin.
-    destruct (Ho e Hin) as [c [chn [Hc [E [Hchn Hu]]]]].
-    apply existsb_exists. exists c. split; [assumption|]. rewrite E. cbn [andb].
-    apply existsb_exists. exists chn. split; [assumption|].
-    apply existsb_exists. exists e. split; [apply usual_effects_l_iff; assumption|apply ev_eqb_refl].
-Qed.
